@@ -841,7 +841,8 @@ pub fn c19_strategy() -> BoxedStrategy<RespCase> {
             .collect();
         RespCase {
             plan,
-            wmode: 0,
+            // (the header block, too, goes out through writers that take part of what they are offered)
+            wmode: if body_seed % 3 == 1 { (body_seed / 3) % 6 } else { 0 },
             ctor,
             status,
             headers,
